@@ -405,7 +405,23 @@ class Translator:
         inp = it["params"][0][0]
         if b[0] == "call" and len(b[2]) == 1 and b[2][0] == ("path", [inp]) and not self.mentions(b[1], inp):
             return self.parser(b[1], cx)
-        raise Unsupported("helper parser %s (no model term) is not a single combinator expression" % name)
+        # let (i, x) = p(i)?; let (i, y) = q(i)?; Ok((i, v))   with the input threaded through: a Bind chain
+        tail_ok = b[0] == "block" and b[2] is not None and b[2][0] == "call" and b[2][1] == ("path", ["Ok"]) and b[2][2] and b[2][2][0][0] == "tuple" \
+                and len(b[2][2][0][1]) == 2 and b[2][2][0][1][0] == ("path", [inp])
+        tail_comb = b[0] == "block" and b[2] is not None and b[2][0] == "call" and len(b[2][2]) == 1 and b[2][2][0] == ("path", [inp]) and b[2][1] != ("path", ["Ok"])
+        if tail_ok or tail_comb:
+            binds = []
+            saved = set(cx.locals)
+            for st in b[1]:
+                ok = (st[0] == "let" and st[2][0] == "try" and st[1][0] == "ptuple" and len(st[1][1]) == 2 and st[1][1][0] == ("pid", inp)
+                      and st[2][1][0] == "call" and len(st[2][1][2]) == 1 and st[2][1][2][0] == ("path", [inp]) and not self.mentions(st[2][1][1], inp))
+                if not ok: raise Unsupported("helper parser %s (no model term): statement outside the straight-line form" % name)
+                binds.append((self.parser(st[2][1][1], cx), self.pat(st[1][1][1], cx)))
+            t = ("Ret %s" % self.val(b[2][2][0][1][1], cx)) if tail_ok else self.parser(b[2][1], cx)
+            for pt, pa in reversed(binds): t = "Bind %s (fun %s => %s)" % (pt, pa, t)
+            cx.locals = saved
+            return "(%s)" % t
+        raise Unsupported("helper parser %s (no model term) is neither a single combinator expression nor a straight-line sequence" % name)
 
     def is_crate_parser(self, name):
         it = self.fns.get(name)
@@ -579,6 +595,7 @@ class Translator:
                 p = [s for s in f[1] if not s.startswith("<")]
                 key = "::".join(p)
                 if key in NOM_PRIMS and len(a) == 1: return "(run %s %s)" % (NOM_PRIMS[key], self.val(a[0], cx))
+                if len(p) == 1 and p[0] in cx.parser_params and len(a) == 1: return "(run %s %s)" % (ident(p[0]), self.val(a[0], cx))
                 if len(p) == 1 and self.is_crate_parser(p[0]) and self.parser_kind(self.fns[p[0]]) == "direct" and a:
                     cx.calls.add(p[0])
                     if not self.has_model(p[0]):      # a helper without a model term: its own translation
@@ -627,7 +644,10 @@ class Translator:
             chain.append((cond, b))
             if cond == "true": break
         else:
-            raise Unsupported("match without a default arm")
+            if len(arms) == 2 and {arms[0][0][0], arms[1][0][0]} == {"pbool"} and arms[0][0][1] != arms[1][0][1] and arms[0][1] is None and arms[1][1] is None:
+                chain[-1] = ("true", chain[-1][1])      # `true` / `false` arms are exhaustive: the second is the default
+            else:
+                raise Unsupported("match without a default arm")
         t = chain[-1][1]
         for cond, b in reversed(chain[:-1]): t = "(if %s then %s else %s)" % (cond, b, t)
         return self.guarded(cx, g0, t)
@@ -640,6 +660,9 @@ class Translator:
         if k == "prange": return "((%d <=? %s) && (%s <=? %d))" % (pat[1], s, s, pat[2])
         if k == "ppath":
             c = self.const_value(pat[1])
+            if c is None and len(pat[1]) == 1 and pat[1][0] in self.plain_consts:
+                if pat[1][0] not in MODEL_CONSTS: cx.used_consts.add(pat[1][0])
+                c = pat[1][0]
             if c is None: raise Unsupported("pattern %s" % "::".join(pat[1]))
             return "(%s =? %s)" % (s, c)
         if k == "pts" and len(pat[1]) == 1 and pat[1][0] in self.newtypes and len(pat[2]) == 1:
@@ -689,6 +712,15 @@ class Translator:
                     raise Unsupported("branch of a let-if")
                 c = self.val(e[1], cx)
                 return "(let k__ := %s in if %s then %s else %s)" % (k, c, branch(e[2]), branch(e[3]))
+            if e[0] == "match" and self.has_try(e) and pat[0] == "ptuple" and len(pat[1]) == 2 and not any(self.is_return(b) for _, _, b in e[2]):
+                pa, pb = self.pat(pat[1][0], cx), self.pat(pat[1][1], cx)
+                k = "(fun %s %s => %s)" % (pa, pb, self.stmts(rest, tail, cx))
+                def branch(bl, cx_):
+                    while bl[0] == "block" and not bl[1] and bl[2] is not None: bl = bl[2]
+                    if bl[0] == "try": return "(bindr %s k__)" % self.res(bl[1], cx_)
+                    if bl[0] == "tuple" and len(bl[1]) == 2: return "(k__ %s %s)" % (self.val(bl[1][0], cx_), self.val(bl[1][1], cx_))
+                    raise Unsupported("arm of a let-match")
+                return "(let k__ := %s in %s)" % (k, self.match(e, cx, branch))
             if e[0] == "match" and any(self.is_return(b) for _, _, b in e[2]):
                 g0 = len(cx.guards)
                 sc = self.val(e[1], cx)
@@ -761,6 +793,8 @@ class Translator:
                 params.append("{T__ : Type} (%s : P T__)" % ident(n)); cx.parser_params.add(n)
             elif tt in STRUCTS or tt in ("TlsRecordHeader", "DTLSRecordHeader"):
                 params.append("(%s : %s)" % (ident(n), tt)); cx.types[n] = tt
+            elif self.expected and name not in self.expected:
+                params.append("{T_%s : Type} (%s : T_%s)" % (ident(n), ident(n), ident(n)))      # helper without a model term: any value type
             else: raise Unsupported("parameter %s : %s" % (n, t))
             cx.locals.add(n)
         body = it["body"]
@@ -901,7 +935,7 @@ def main():
             try:
                 cx0 = Ctx(T, None); cx0.calls = set(); cx0.locals = set(); cx0.fn_generics = set(); cx0.parser_params = set(); cx0.used_consts = set()
                 v = T.val(rustsub.Parser(rustsub.tokenise(T.plain_consts[c])).expr(), cx0)
-                lines.append("Definition %s : N := %s.\n" % (c, v))
+                lines.append("Notation %s := (%s) (only parsing).\n" % (c, v))
             except Unsupported as e:
                 failed[d["name"]] = "constant %s: %s" % (c, e)
         lines.append("(* %s: %s *)" % (T.fns[d["name"]]["file"], d["name"]))
